@@ -1,6 +1,6 @@
 //! pvmon — runtime monitors for paseto-rs. One sub-command per property; each run is one shard
 //! and writes a JSON report the python driver (`/verif/check`) merges into the evidence file.
-#![allow(clippy::type_complexity)]
+#![allow(clippy::type_complexity, dead_code)]
 
 mod b64;
 mod backend;
